@@ -9,9 +9,9 @@
    (d) the variant of the period-stepping loop and the guard that makes it apply.
    Property theorems only. *)
 From Coq Require Import String.
-From LedgerV Require Import Base.Prelude Base.Round Model.Amount Model.Buffers Model.Nesting Model.Stepping Model.FormatRef Model.Aliases
+From LedgerV Require Import Base.Prelude Base.Round Model.Amount Model.Buffers Model.Nesting Model.Stepping Model.FormatRef Model.Aliases Model.Selection
   Gen.BufferSites Gen.SafetyGuards
-  Proofs.BuffersProofs Proofs.NestingProofs Proofs.DivGuardProofs Proofs.SteppingProofs Proofs.FormatRefProofs Proofs.AliasesProofs.
+  Proofs.BuffersProofs Proofs.NestingProofs Proofs.DivGuardProofs Proofs.SteppingProofs Proofs.FormatRefProofs Proofs.AliasesProofs Proofs.SelectionProofs.
 Import List.
 Local Open Scope Z_scope.
 
@@ -293,6 +293,43 @@ Theorem alias_wrong_record_never_ends :
 Proof. exact wrong_record_never_ends_proof. Qed.
 Print Assumptions alias_wrong_record_never_ends.
 
+(* ================= (g) operands picked under a precondition computed earlier ================= *)
+
+(* xact_base_t::finalize, two-commodity block: because the loop that counts commodities_left and
+   the loop that picks x and y apply the same test (the translator checks that they do), entering
+   the block means that both pointers are set, and to components that pass the test - whatever the
+   test is.  `*x`, `*y`, `x->commodity()` are therefore never a null dereference. *)
+Theorem finalize_two_commodity_operands_exist :
+  forall (A : Type) (p : A -> bool) (l : list A) r,
+    finalize_operands p p l = Some r -> exists a b, r = (Some a, Some b) /\ p a = true /\ p b = true.
+Proof. exact @finalize_operands_exist. Qed.
+Print Assumptions finalize_two_commodity_operands_exist.
+
+(* why the two tests must be the same: counting the components that are not exactly zero but
+   picking only those that do not display as zero can enter the block with y unset *)
+Theorem finalize_mismatched_tests_leave_y_unset :
+  exists (l : list Z) x, finalize_operands (fun z => negb (z =? 0)) (fun z => 10 <=? Z.abs z) l = Some (x, None).
+Proof. exact finalize_operands_mismatch. Qed.
+Print Assumptions finalize_mismatched_tests_leave_y_unset.
+
+(* journal_t::add_xact, duplicate UUID: with the sizes compared first the three-iterator std::equal
+   never reads past other_posts; without, it does whenever the later transaction has more postings *)
+Theorem uuid_compare_guarded_in_bounds :
+  forall (A : Type) (this other : list A), uuid_compare true this other <> ReadPastEnd.
+Proof. exact @uuid_compare_size_first. Qed.
+Print Assumptions uuid_compare_guarded_in_bounds.
+
+Theorem uuid_compare_of_source_in_bounds :
+  src_uuid_size_test_first = true ->
+  forall (A : Type) (this other : list A), uuid_compare src_uuid_size_test_first this other <> ReadPastEnd.
+Proof. intros -> A this other. apply uuid_compare_size_first. Qed.
+Print Assumptions uuid_compare_of_source_in_bounds.
+
+Theorem uuid_compare_unguarded_reads_past_end :
+  forall (A : Type) (this other : list A), (length other < length this)%nat -> uuid_compare false this other = ReadPastEnd.
+Proof. exact @uuid_compare_unguarded_reads_past. Qed.
+Print Assumptions uuid_compare_unguarded_reads_past_end.
+
 (* ================= the guards the theorems rely on are in the source ================= *)
 Theorem source_guards_present :
   src_period_zero_guard = true /\ src_int_div_guard = true /\ src_line_too_long_guard = true /\
@@ -300,7 +337,8 @@ Theorem source_guards_present :
   (* guards added by the repairs of F42 F47 F39 F43 F45 *)
   src_conversion_cycle_guard = true /\ src_expr_argument_guard = true /\ src_script_loop_guard = true /\
   src_no_xact_journal_master = true /\ src_find_account_no_frame_buffer = true /\
-  src_format_field_ref_guard = true /\ src_alias_records_what_it_looks_up = true.
+  src_format_field_ref_guard = true /\ src_alias_records_what_it_looks_up = true /\
+  src_finalize_pick_uses_count_predicate = true.
 Proof. repeat split; reflexivity. Qed.
 Print Assumptions source_guards_present.
 
